@@ -1122,6 +1122,8 @@ impl BufferParser for Parser {
 
                     '?' => {
                         if !is_start {
+                            // error in control sequence, terminate reading
+                            self.state = EngineState::Default;
                             return Err(ParserError::UnsupportedEscapeSequence(
                                 self.current_escape_sequence.clone(),
                             ).into());
@@ -1132,6 +1134,8 @@ impl BufferParser for Parser {
                     }
                     '=' => {
                         if !is_start {
+                            // error in control sequence, terminate reading
+                            self.state = EngineState::Default;
                             return Err(ParserError::UnsupportedEscapeSequence(
                                 self.current_escape_sequence.clone(),
                             ).into());
@@ -1142,6 +1146,8 @@ impl BufferParser for Parser {
                     }
                     '!' => {
                         if !is_start {
+                            // error in control sequence, terminate reading
+                            self.state = EngineState::Default;
                             return Err(ParserError::UnsupportedEscapeSequence(
                                 self.current_escape_sequence.clone(),
                             ).into());
@@ -1152,6 +1158,8 @@ impl BufferParser for Parser {
                     }
                     '<' => {
                         if !is_start {
+                            // error in control sequence, terminate reading
+                            self.state = EngineState::Default;
                             return Err(ParserError::UnsupportedEscapeSequence(
                                 self.current_escape_sequence.clone(),
                             ).into());
